@@ -329,7 +329,9 @@ def gen_edit_op(rng, nm, lib, libnodes):
                     'effect_set', 'effect_shader', 'effect_misc', 'sampler_filters', 'surface_format', 'light_set',
                     'camera_set', 'asset', 'contributor_set', 'matnode_inputs', 'geomnode_materials', 'add', 'add_source',
                     'swap_positions', 'swap_positions', 'effect_set', 'effect_set', 'replace_asset', 'replace_asset',
-                    'replace_object', 'replace_object', 'replace_object', 'replace_scene'])
+                    'replace_object', 'replace_object', 'replace_object', 'replace_scene',
+                    'dup_source', 'dup_source', 'rename_source_reuse', 'dup_object', 'dup_object', 'dup_node',
+                    'effect_add_params', 'geomnode_materials', 'matnode_inputs', 'set_scene'])
     i, j = rng.randrange(8), rng.randrange(8)
     if k == 'rename':
         return [k, rng.choice(['geometries', 'lights', 'cameras', 'images', 'effects', 'materials', 'scenes']), i, nm.fresh()]
@@ -358,6 +360,19 @@ def gen_edit_op(rng, nm, lib, libnodes):
         return [k, i, nm.fresh()]
     if k == 'replace_asset':
         return [k, gen_asset(rng, nm)]
+    if k == 'dup_source':
+        return [k, i, j, nm.fresh()]
+    if k == 'rename_source_reuse':
+        return [k, i, j, nm.fresh(), rng.random() < 0.7]
+    if k == 'dup_object':
+        return [k, rng.choice(['lights', 'cameras', 'materials', 'effects', 'geometries']), i, nm.fresh()]
+    if k == 'dup_node':
+        return [k, i, nm.fresh(), j]
+    if k == 'effect_add_params':
+        return [k, i, nm.fresh(), nm.fresh(), j, rng.choice([None, 'A8R8G8B8']), rng.choice([None] + FILTERS),
+                rng.choice([None] + FILTERS), rng.random() < 0.5]
+    if k == 'set_scene':
+        return [k, rng.choice([None, i])]
     if k == 'replace_scene':
         return [k, i]
     if k == 'replace_object':
@@ -432,7 +447,8 @@ def expand(rng, op):
     removed and the document written, so that setting it re-introduces it into an existing element"""
     if op[0] == 'effect_set' and (op[3] is not None or op[4] is not None) and rng.random() < 0.6:
         return [[op[0], op[1], op[2], None, None], ['write'], op]
-    if op[0] in ('replace_asset', 'replace_object', 'replace_scene') and rng.random() < 0.5:
+    if op[0] in ('replace_asset', 'replace_object', 'replace_scene', 'rename', 'dup_source', 'dup_object',
+                 'rename_source_reuse') and rng.random() < 0.5:
         return [['write'], op]      # replacement on a document that was saved once already
     return [op]
 
@@ -675,7 +691,8 @@ def schema_signature(msg):
     return 'C04:schema:%s%s:%s' % (el, '@' + at if at else '', kind), text[:200]
 
 
-CORPUS_BASES = ['corpus:rich_base.dae', 'corpus:rich_base.dae+split', 'duck_triangles.dae+split']
+CORPUS_BASES = ['corpus:rich_base.dae', 'corpus:rich_base.dae+split', 'duck_triangles.dae+split', 'corpus:sparse_base.dae',
+                'corpus:sparse_base.dae']
 
 
 def base_path(name):
